@@ -399,6 +399,14 @@ pub(crate) async fn run_command_loop(
   }
 
   // Publish the final ActorStopping event for this SocketCore.
+  // Commands still queued in the mailbox will never be processed, and the channel keeps queued
+  // items alive for as long as any Socket handle holds a sender: drop them now so that their
+  // callers (close(), set_option(), bind(), ... racing with this shutdown) see a reply-channel
+  // error instead of waiting for ever.
+  while let Ok(unprocessed) = command_receiver.try_recv() {
+    drop(unprocessed);
+  }
+
   if let Some(err) = final_error_for_actorstop {
     actor_drop_guard.set_error(err);
   } else {
